@@ -17,7 +17,7 @@ Allowed(entry) ==
 Ok(c) ==
   /\ c.outcome \in Allowed(c.entry)          \* never BaseException, never an ill-typed value, never a hang ("hang" is no member)
   /\ (c.entry = "list" => c.outcome \in {"typed", "Exception"} /\ c.steps <= c.budget)
-  /\ (c.entry = "list" /\ c.outcome = "typed" => c.entries_returned <= c.lines_sent)   \* nothing invented, '.'/'..' skipped
+  /\ (c.entry = "list" /\ c.outcome = "typed" => c.entries_returned = c.lines_sent - c.dots)   \* every line reported once; only '.'/'..' skipped
   /\ (c.entry = "list" /\ c.unparsable > 0 => c.outcome = "Exception")                \* reported, not dropped
 Init == i = 1
 Next == i <= Len(Cases) /\ i' = i + 1
